@@ -61,6 +61,31 @@ def gen(ctx):
                 add('server_read_bid', [m, FORMAL[p]], ('relay', m, c))
                 a = m + alert(r)
                 add('server_read_bid', [a, FORMAL[p]], ('relay', m, c))
+    # B2 the same through the real Server.bidding_phase (its own alert detection), inside a legal auction
+    def auction_with(c, p):
+        # returns (dealer, [(seat, call idx)], position of the tested call)
+        if c < 35 or c == 35:
+            return p, [(p, c)], 0
+        if c == 36:
+            return (p - 1) % 4, [((p - 1) % 4, 0), (p, 36)], 1
+        return (p - 2) % 4, [((p - 2) % 4, 0), ((p - 1) % 4, 36), (p, 37)], 2
+    for c in range(38):
+        for p in range(4):
+            d, acalls, pos = auction_with(c, p)
+            seq = list(acalls)
+            nxt = (seq[-1][0] + 1) % 4
+            for _ in range(3):       # close the auction with passes
+                seq.append((nxt, 35)); nxt = (nxt + 1) % 4
+            for variant in range(3 if th else 2):
+                msgs = []
+                for i, (seat, call) in enumerate(seq):
+                    m = f'{FORMAL[seat]} {bid_text(call)}'
+                    if i == pos:
+                        m = mangle(r, m) + (alert(r) if variant else '')
+                        tested = m
+                    msgs.append([seat, m])
+                plain = tested if not variant else tested[:len(f'{FORMAL[p]} {bid_text(c)}')]
+                add('server_auction', [d, msgs], ('auction', [x[1] for x in seq], p, plain))
     # C cards: every card x seat x 2 notations, case variants
     R = '23456789TJQKA'
     for c in range(52):
@@ -181,6 +206,10 @@ def meets(exp, o):
     if k == 'header': return (o['n'], o['d'], o['v']) == (exp[1], exp[2], exp[3])
     if k == 'conn': return (o['team'], o['seat'], o['version']) == (exp[1], exp[2], exp[3])
     if k == 'bool': return o['ok'] == exp[1]
+    if k == 'auction':
+        # understood as the original calls, and relayed (without the alert suffix) to the three other seats
+        others = [i for i in range(4) if i != exp[2]]
+        return o['hist'] == exp[1] and all(exp[3] in o['relayed'][str(i)] for i in others) and exp[3] not in o['relayed'][str(exp[2])]
     return False
 
 
@@ -217,9 +246,9 @@ def run(ctx):
     viol.sort(key=lambda v: len(str(v['input'])))
     # tie
     try:
-        tl = [f'({case_lit(c)}, {obs_lit(c["f"], o)})' for c, o in zip(calls, out['calls'])]
+        tl = [f'({case_lit(c)}, {obs_lit(c["f"], o)})' for c, o in zip(calls, out['calls']) if c['f'] != 'server_auction']
         tr = pc.run_shards('C19', 'tie', 'From BE Require Import Model.WireTie Model.CaseLib.', 'wcase * wobs', pc.B2N.format('tie_case'), tl, 700)
-        bad = [(c, o) for c, o, code in zip(calls, out['calls'], tr) if code]
+        bad = [(c, o) for (c, o), code in zip([(c, o) for c, o in zip(calls, out['calls']) if c['f'] != 'server_auction'], tr) if code]
         if bad:
             ties.append(dict(what='Model/Wire.v differs from the implementation', count=len(bad), first=[dict(case=c, observed=o) for c, o in bad[:4]]))
         tf = pc.run_shards('C19', 'tie_fr', 'From BE Require Import Model.WireTie Model.CaseLib.', 'list nat * list (list nat) * nat', pc.B2N.format('tie_frame'), fl, 150)
